@@ -224,6 +224,12 @@ pub fn do_dispatch(el: &mut EventLoop<'static, ()>, timeout: Option<Duration>) -
                 if !w.dispatch_failed && !w.had_reg_failure {
                     w.alarm("C15.unexpected_dispatch_error", "error-without-failing-source", format!("dispatch returned {} although no source failed", e));
                 }
+                // synthetic events announced before the dispatch failed stay owed
+                for s in w.srcs.iter_mut() {
+                    if s.life.synth_returned && s.life.synth_delivered == 0 && matches!(s.st, St::Enabled | St::Limbo) {
+                        s.synth_owed = true;
+                    }
+                }
                 let ran: Vec<usize> = w.idles.iter().filter(|i| i.ran_dispatch == d).map(|i| i.id).collect();
                 if !ran.is_empty() {
                     w.alarm("C13.no_idle_on_err", "idle-ran-in-failed-dispatch", format!("idles {:?} ran although dispatch {} returned an error", ran, d));
@@ -737,9 +743,11 @@ fn recover_after_error(el: &mut EventLoop<'static, ()>) -> Result<(), ()> {
             .map(|s| (s.uid, s.must.clone().unwrap()))
             .collect()
     });
+    // (delivery is only demanded for sources in good standing; a source in limbo may or may not get it)
+    let mut owed: Vec<Uid> = w(|w| w.srcs.iter().filter(|s| s.synth_owed && s.st == St::Enabled).map(|s| s.uid).collect());
     let mut ok_seen = 0;
     for _ in 0..4 {
-        if watch.is_empty() && ok_seen >= 1 {
+        if watch.is_empty() && owed.is_empty() && ok_seen >= 1 {
             break;
         }
         match do_dispatch(el, Some(Duration::ZERO)) {
@@ -749,6 +757,11 @@ fn recover_after_error(el: &mut EventLoop<'static, ()>) -> Result<(), ()> {
                 watch.retain(|(u, _)| w(|w| {
                     let s = &w.srcs[*u];
                     s.st == St::Enabled && s.last_cb_dispatch != d && s.touched_at != d && !s.fds.iter().any(|c| c.modified_at == d)
+                }));
+                // (a source that was disabled, removed or re-registered meanwhile is no longer owed anything)
+                owed.retain(|u| w(|w| {
+                    let s = &w.srcs[*u];
+                    s.synth_owed && s.st == St::Enabled && s.touched_at != d
                 }));
                 if ok {
                     ok_seen += 1;
@@ -761,6 +774,12 @@ fn recover_after_error(el: &mut EventLoop<'static, ()>) -> Result<(), ()> {
     }
     if ok_seen >= 1 {
         w(|w| {
+            for u in &owed {
+                let detail = format!("source #{} had announced a synthetic event from before_sleep when the dispatch failed because of another source; {} later successful dispatches never delivered it", u, ok_seen);
+                w.alarm("C15.nothing_lost", "synthetic-event-lost-after-failed-dispatch", detail.clone());
+                w.alarm("C14.synthetic", "synthetic-not-delivered-after-failed-dispatch", detail);
+                w.srcs[*u].synth_owed = false;
+            }
             for (u, reason) in &watch {
                 let kind = w.srcs[*u].spec.kind.clone();
                 let cause = kind_cause_name(&kind);
